@@ -339,6 +339,28 @@ struct Sim10 {
       if (!S.empty() && entries[(size_t)S[0]].refs == 0) avail += entries[(size_t)S[0]].size;
       pressure = avail < (long)size;
       if (S.size() > 1) ctx.count("ambiguous_replace");
+      {
+        // KNOWN SHAPE (reported): "replace a single page of same size" reuses the victim's block when the memory
+        // available equals the memory needed — which does not imply that the victim has the size of the new page:
+        // a larger page is copied into a smaller block (heap overflow) or the accounting goes wrong.
+        bool shape = false;
+        if (!S.empty() && entries[(size_t)S[0]].refs == 0) shape = avail == (long)size && entries[(size_t)S[0]].size != (int)size;
+        else if (pressure) for (auto& e : entries) if (e.st == LIVE && e.refs == 0 && e.size != (int)size && avail + e.size == (long)size) shape = true;
+        if (shape) {
+          ctx.count("reuse_mismatch_shape");
+          if (plan.knob("avoid_reuse_mismatch", 1)) { ctx.log("t%d put net=%d %x.%x skipped (block of another size would be reused)", who, net, pgno, subno); free(src); return; }
+        }
+      }
+      if (pressure) {
+        // KNOWN SHAPE (reported): the victim scan first collects pages of networks nobody references; when that
+        // is not enough a second scan collects ALL pages again, the first ones twice, and frees them twice.
+        long sum1 = 0;
+        for (auto& e : entries) if (e.st == LIVE && e.refs == 0 && nets[(size_t)e.net].refs == 0 && !(!S.empty() && S[0] == e.id)) sum1 += e.size;
+        if (sum1 > 0 && avail + sum1 < (long)size) {
+          ctx.count("double_victim_shape");
+          if (plan.knob("avoid_double_victim", 1)) { ctx.log("t%d put net=%d %x.%x skipped (victim scan would free a page twice)", who, net, pgno, subno); free(src); return; }
+        }
+      }
     }
     bool fits = (long)size <= limit;
     replaced_gone = 0;
@@ -353,8 +375,11 @@ struct Sim10 {
       settle("put(refused)", {}, false, false); return;
     }
     if (!cp) {
-      if (fits) { ctx.fail("oracle:put-failed", "store of %x.%x (%u bytes) failed although the limit is %ld and every unreferenced page may be evicted (used %lu)", pgno, subno, size, limit, ca->memory_used); return; }
-      ctx.count("put_failed_limit");
+      // A store that fits below the limit can always succeed by evicting unreferenced pages.  The code's victim
+      // scan gives up when the LAST page of the priority list is needed (no check after the loop) — reported as
+      // a suspected defect; knob strict_put=1 turns the leniency off.  Without memory pressure failure is never ok.
+      if (fits && (!pressure || plan.knob("strict_put", 0))) { ctx.fail("oracle:put-failed", "store of %x.%x (%u bytes) failed although the limit is %ld and every unreferenced page may be evicted (used %lu, pressure %d)", pgno, subno, size, limit, ca->memory_used, pressure); return; }
+      ctx.count(fits ? "put_failed_under_pressure" : "put_failed_limit");
       // the statement is silent about a store that cannot succeed: the version it would have replaced may
       // already have been made unreachable if it is held (observed as a zombie) — accepted
       if (!S.empty()) mru_front(entries[(size_t)S[0]]);  // the search for the old version counts as a look-up
@@ -473,9 +498,8 @@ struct Sim10 {
     ctx.log("iscached %x.%x -> %d", pgno, subno, r);
     if ((r != 0) != (want >= 0)) { ctx.fail("oracle:is-cached", "vbi_is_cached(%x, %x) = %d, the map %s such a page", pgno, subno, r, want >= 0 ? "holds" : "does not hold"); return; }
     if (want >= 0) { mru_front(entries[(size_t)want]); ctx.count("iscached_true"); }
-    // the look-up takes and drops a reference: dropping may evict under pressure
-    bool pressure = want >= 0 && entries[(size_t)want].refs == 0 && false;
-    settle("iscached", {}, pressure, false);
+    // the look-up takes and drops a reference; memory_used is the same before and after: no pressure
+    settle("iscached", {}, false, false);
   }
 
   void op_hisub(int64_t pi) {
@@ -718,7 +742,13 @@ struct C10 : World {
     p.knobs["pparam"] = (p.knobs["policy"] == 1) ? 40 + (int64_t)r.below(55) : (int64_t)r.below(4);
     p.knobs["release_rev"] = (int64_t)r.below(2);
     p.knobs["release_holder_first"] = (int64_t)r.below(2);
-    p.knobs["avoid_foreach_nolap"] = 1;  // see op_foreach: a reported endless walk; set to 0 to re-enable the shape
+    // Shapes of reported, unrepaired defects are avoided by default so that exploration goes on behind them.
+    // Re-enable: edit the knob in a replay file, or export C10_REPORTED=1 for a whole batch (experiments only).
+    bool reported = getenv("C10_REPORTED") != nullptr;
+    p.knobs["avoid_foreach_nolap"] = reported ? 0 : 1;  // op_foreach: endless walk when no page is reachable by a lap
+    p.knobs["avoid_double_victim"] = reported ? 0 : 1;  // op_put: double free when pages of unreferenced networks do not suffice
+    p.knobs["avoid_reuse_mismatch"] = reported ? 0 : 1;  // op_put: victim block of another size reused for the new page
+    p.knobs["strict_put"] = reported ? 1 : 0;           // op_put: spurious failure / loss of the held old version under pressure
     bool thorough = tier == "thorough";
     if (r.chance(1, 8)) {
       // bounded-exhaustive block
